@@ -36,6 +36,7 @@ type placer struct {
 	dirs  map[string]bool // directories owned by a placement
 	next  int             // placement index {i}
 	group int
+	alone bool // place the next fixture without its companion files (go.sum, _locales, metadata.db)
 }
 
 func newPlacer(t *table) *placer {
@@ -118,6 +119,9 @@ func (p *placer) place(fi int, tm string, d string) int {
 			comp = append(comp, FileSpec{Path: "var/lib/containerd/io.containerd.snapshotter.v1.overlayfs/metadata.db",
 				Src: Src{Fix: path.Join("extractor/filesystem", info.Def.Dir, "testdata", "metadata_linux_test.db")}})
 		}
+	}
+	if p.alone {
+		comp = nil
 	}
 	if len(comp) > 0 {
 		p.group++
@@ -243,7 +247,10 @@ func addHealthy(rt *rapid.T, p *placer, enabled []string, avoid map[string]bool,
 		if fi < 0 {
 			continue
 		}
-		if p.place(fi, homeTmpl(rt, t, fi, fmt.Sprintf("h%d.tm", k)), drawDir(rt, fmt.Sprintf("h%d.dir", k), false)) >= 0 {
+		p.alone = chance(rt, 20, fmt.Sprintf("h%d.alone", k))
+		idx := p.place(fi, homeTmpl(rt, t, fi, fmt.Sprintf("h%d.tm", k)), drawDir(rt, fmt.Sprintf("h%d.dir", k), false))
+		p.alone = false
+		if idx >= 0 {
 			placed = append(placed, e)
 		}
 	}
